@@ -200,7 +200,7 @@ func main() {
 		return
 	}
 	r := report.New("C04", tier, "model_checking")
-	r.Rule = "E1: every structure tree of the 8 geometry types (members 0..3, ring/line lengths 0..2(3), collections nested to depth 2(3), *Bounds members) x every single and double substitution of {-0,+Inf,-Inf} into a coordinate slot; plus all pairs and triples of the closed boxes over a 4-value lattice per axis and the empty box, and the same over the extended-real lattice {-Inf,-0,1,+Inf} (unbounded boxes and boxes at infinity). Non-trivial = geometry has at least one empty member or a substituted coordinate; box tuples with at least one proper overlap."
+	r.Rule = "E1: every structure tree of the 8 geometry types (members 0..3, ring/line lengths 0..2(3), collections nested to depth 2(3), *Bounds members) x every single and double substitution of {-0,+Inf,-Inf} into a coordinate slot; every geometry (<= 1 substitution) also with its vertex slices cut from one flat buffer (same answers, buffer not written, same answers on a second call); plus all pairs and triples of the closed boxes over a 4-value lattice per axis and the empty box, and the same over the extended-real lattice {-Inf,-0,1,+Inf} (unbounded boxes and boxes at infinity). Non-trivial = geometry has at least one empty member or a substituted coordinate; box tuples with at least one proper overlap."
 	r.Assumptions = []string{"NaN coordinates are outside the alphabet (min/max semantics undefined)", "a *Bounds used as a geometry has Min<=Max"}
 
 	cfg := geomgen.Config{MaxMembers: 3, Lens: []int{0, 1, 2}, FlatMax: 3, PolyRings: 2, Depth: 2, GCMembers: 2, Bounds: true}
@@ -241,6 +241,18 @@ func main() {
 			}
 			if sym, det := checkGeom(g); sym != "" {
 				r.Violation(fmt.Sprintf("geom|%s|%s", s.Kind, sym), map[string]interface{}{"case": c, "geometry": fmt.Sprintf("%#v", g), "observed": det})
+			}
+			// memory layout: the same vertices cut from one flat buffer (spare
+			// capacity reaching into the next member) and a second evaluation
+			if len(subs) <= 1 {
+				if sym, det := geomgen.LayoutCheck(g, func(x geom.Geom) string {
+					if sy, de := checkGeom(x); sy != "" {
+						return sy + ": " + de
+					}
+					return fmt.Sprint(*x.Bounds(), x.Len())
+				}); sym != "" {
+					r.Violation(fmt.Sprintf("geom|%s|%s", s.Kind, sym), map[string]interface{}{"case": c, "geometry": fmt.Sprintf("%#v", g), "observed": det})
+				}
 			}
 			if i%97 == 0 && len(subs) == 0 {
 				r.Sample(12, fmt.Sprintf("%s -> %#v", s, g))
